@@ -381,6 +381,9 @@ class Interp:
             if len(a.slots) != len(b.slots):
                 return False
             return b_and(*[self.eq(x, y) for x, y in zip(a.slots, b.slots)])
+        if isinstance(a, SVec) and (is_int_like(b) or isinstance(b, (float, bool, SBool))):
+            # numpy: vector == scalar is element-wise
+            return SVec([self.eq(x, b) for x in a.slots], 'bool')
         if isinstance(a, SDict) and isinstance(b, SDict):
             if set(a.d.keys()) != set(b.d.keys()):
                 return False
@@ -430,7 +433,16 @@ class Interp:
         return False
 
     def glist_eq(self, a, b):
-        raise EngineError('glist equality')
+        """Sufficient condition for two guarded lists to denote the same Python list: position by
+        position the guards agree and present values are equal (both lists come from the same
+        canonical enumeration order)."""
+        if len(a.items) != len(b.items):
+            raise EngineError('equality of guarded lists of different shape')
+        out = []
+        for (g1, v1), (g2, v2) in zip(a.items, b.items):
+            out.append(self.eq_bool(g1, g2))
+            out.append(b_implies(g1, self.eq(v1, v2)))
+        return b_and(*out)
 
     def compare(self, op, a, b):
         if isinstance(op, ast.Eq):
@@ -991,7 +1003,8 @@ class Interp:
                 if name in k.__dict__:
                     raw = k.__dict__[name]
                     break
-            if raw is None:
+            if raw is None or (obj.__module__ or '').split('.')[0] not in ('bridge_env', 'spec',
+                                                                           'contracts'):
                 try:
                     return getattr(obj, name)
                 except AttributeError as e:
